@@ -70,18 +70,19 @@ def features(tree):
 
 def main():
     per = {}
-    for line in open(os.path.join(common.VERIF, 'corpus', 'PINNED.sha256')):
-        rel = line.rstrip('\n').split('  ', 1)[1]
-        try:
-            tree = ast.parse(open(os.path.join(common.STDLIB, rel), 'rb').read())
-        except Exception:
-            continue
-        per[rel] = features(tree)
+    for fname, root, prefix in (('PINNED.sha256', common.STDLIB, ''), ('PINNED_SITE.sha256', '/venv/lib/python3.12/site-packages', 'site-packages/')):
+        for line in open(os.path.join(common.VERIF, 'corpus', fname)):
+            rel = line.rstrip('\n').split('  ', 1)[1]
+            try:
+                tree = ast.parse(open(os.path.join(root, rel), 'rb').read())
+            except Exception:
+                continue
+            per[prefix + rel] = features(tree)
     feats = sorted({k for c in per.values() for k in c})
     out = {}
     for f in feats:
         ranked = sorted(per, key=lambda r: (-per[r][f], r))
-        out[f] = [r for r in ranked[:5] if per[r][f] > 0]
+        out[f] = [r for r in ranked[:4] if per[r][f] > 0] + [r for r in ranked if r.startswith('site-packages/') and per[r][f] > 0][:3]
     json.dump(out, open(os.path.join(common.VERIF, 'corpus', 'FEATURES.json'), 'w'), indent=1, sort_keys=True)
     print(len(feats), 'features;', len({r for v in out.values() for r in v}), 'distinct files')
 
